@@ -35,6 +35,7 @@ func init() {
 		},
 		Run: runC05,
 		Controls: []core.Control{
+			{Name: "vector-shift-constant-count-unmasked", File: "internal/engine/wazevo/backend/isa/amd64/machine_vec.go", Old: "\t\tshiftOp = sseOpcodePsllq\n\tdefault:\n\t\tpanic(fmt.Sprintf(\"invalid lane type: %s\", lane))\n\t}\n\n\t_xx := m.getOperand_Reg(m.c.ValueDefinition(x))\n\txx := m.copyToTmp(_xx.reg())\n", New: "\t\tshiftOp = sseOpcodePsllq\n\tdefault:\n\t\tpanic(fmt.Sprintf(\"invalid lane type: %s\", lane))\n\t}\n\n\t_xx := m.getOperand_Reg(m.c.ValueDefinition(x))\n\txx := m.copyToTmp(_xx.reg())\n\tif amtDef := m.c.ValueDefinition(y); !isI8x16 && amtDef.IsFromInstr() && amtDef.Instr.Constant() {\n\t\tif amt := amtDef.Instr.ConstantVal(); amt <= 0xff {\n\t\t\tamtDef.Instr.MarkLowered()\n\t\t\tm.insert(m.allocateInstr().asXmmRmiReg(shiftOp, newOperandImm32(uint32(amt)), xx))\n\t\t\tm.copyTo(xx, m.c.VRegOf(ret))\n\t\t\treturn\n\t\t}\n\t}\n", Rule: "R05.8", Substr: "immediate count"},
 			{Name: "cond-invert-entry-copied", File: "internal/engine/wazevo/backend/isa/amd64/cond.go", Old: "\tcase condNL:\n\t\treturn condL\n", New: "\tcase condNL:\n\t\treturn condLE\n", Rule: "R05.6", Substr: "involution"},
 			{Name: "mask-of-any-extend-is-nop", File: "internal/engine/wazevo/ssa/pass.go", Old: "\t\t\t\t\tif v == 0 {\n\t\t\t\t\t\tb.alias(cur.Return(), x)\n\t\t\t\t\t}\n\t\t\t\t}\n", New: "\t\t\t\t\tif v == 0 {\n\t\t\t\t\t\tb.alias(cur.Return(), x)\n\t\t\t\t\t}\n\t\t\t\t}\n\t\t\tcase OpcodeBand:\n\t\t\t\tx, mask := cur.Arg2()\n\t\t\t\text, k := b.InstructionOfValue(x), b.InstructionOfValue(mask)\n\t\t\t\tif ext == nil || k == nil || !k.Constant() {\n\t\t\t\t\tcontinue\n\t\t\t\t}\n\t\t\t\tif op := ext.Opcode(); op == OpcodeUExtend || op == OpcodeSExtend {\n\t\t\t\t\tif from, _, _ := ext.ExtendData(); k.ConstantVal() == uint64(1)<<from-1 {\n\t\t\t\t\t\tb.alias(cur.Return(), x)\n\t\t\t\t\t}\n\t\t\t\t}\n", Rule: "R05.7", Substr: "signedness"},
 			{Name: "i32-shl-without-modulo", File: "internal/engine/interpreter/interpreter.go", Old: "ce.pushValue(uint64(uint32(v1) << (uint32(v2) % 32)))", New: "ce.pushValue(uint64(uint32(v1) << uint32(v2)))", Rule: "R05.1", Substr: "operationKindShl"},
